@@ -148,6 +148,7 @@ class Ctx:
         self.pred = {'compatibility.is_string': is_string, 'is_string': is_string,
                      'compatibility.is_integer': is_integer, 'is_integer': is_integer}
         self.rename = rename      # callee parameter -> caller-level name (inlined validators), None = identity
+        self.rebound = set()      # parameters re-assigned so far: a later test no longer sees the argument
 
     def subject(self, node):
         """the guarded thing: a parameter name, or self.parameters['key']"""
@@ -219,6 +220,8 @@ def chain_steps(ctx, st):
             if g is None:
                 names = sorted({n.id for n in ast.walk(node.test) if isinstance(n, ast.Name)} - {'self'})
                 steps.append('.opaqueGuard %s' % lstr(names[0] if len(names) == 1 else '?'))
+            elif g[0] in ctx.rebound:
+                steps.append('.opaqueGuard %s' % lstr(g[0]))     # tests a re-assigned name, not the argument
             else:
                 steps.append('.guard %s [%s]' % (lstr(g[0]), ', '.join(g[1])))
         elif exc in ERRS:
@@ -342,6 +345,7 @@ def op_steps(ctx, f, params):
                     not st.value.args and not st.value.keywords:
                 continue                      # base-class initialiser of the object under construction
         if isinstance(st, ast.Assign) and all(isinstance(t, ast.Name) for t in st.targets) and pure_expr(st.value):
+            ctx.rebound |= {t.id for t in st.targets if t.id in params}
             continue                          # pure local (incl. pamqp frame construction)
         if ctx.fname == '__init__' and not started and isinstance(st, ast.Assign) and \
                 all(isinstance(t, ast.Attribute) and isinstance(t.value, ast.Name) and t.value.id == 'self'
@@ -349,6 +353,8 @@ def op_steps(ctx, f, params):
             continue                          # field of the object under construction, nothing escapes
         if isinstance(st, ast.Return) and (st.value is None or pure_expr(st.value)):
             continue
+        ctx.rebound |= {n.id for n in ast.walk(st) if isinstance(n, ast.Name) and isinstance(n.ctx, ast.Store)
+                        and n.id in params}
         vis = EffectLabels(ctx)
         vis.visit(st)
         if not vis.out:
@@ -382,6 +388,7 @@ def inline_validator(ctx, call, params):
         rename[ga] = a.id
     sub = Ctx(ctx.src, ctx.rel, ctx.cname, name, ctx.pred['is_string'], ctx.pred['is_integer'],
               rename=rename if gargs else None)
+    sub.rebound = set(ctx.rebound)
     steps = []
     for st in strip_doc(g.body):
         if is_logging(st) or isinstance(st, ast.Pass):
@@ -462,6 +469,8 @@ def render_op(name, params, steps):
 def method_op(src, rel, cname, fname, is_string, is_integer):
     f = src.func(rel, cname, fname)
     where = '%s.%s' % (cname, fname)
+    if f.decorator_list:
+        raise ExtractError('%s: decorated operation (%s)' % (where, ast.unparse(f.decorator_list[0])))
     sig = signature(f, src, rel, where)
     docs = doc_types(ast.get_docstring(f), where)
     tx = transmitted(src, rel, cname, f)
